@@ -136,6 +136,21 @@ CLAIMS["C12"] = {
     "design_ref": "DESIGN.md §3 C12",
 }
 
+CLAIMS["C10"] = {
+    "category": "exploration",
+    "technique": "reference-model oracle (R-FEEL over the generator's tree in which each intended name occurrence is one identifier) over observed parse+evaluate in programmatically built scopes",
+    "text": "Seeded name sets (1-4 word names with and without the additional symbols . / - ' + *, non-ASCII words, and the adversarial families: a name that is a prefix of another; a, b and a-b / a+b / a*b / a/b all bound; a+b bound but b not; three-word symbol names) are bound through Name::new and used in 33 expression positions (operands of every arithmetic operator, comparisons, between, in, if, for / some / every domains and bodies, multi-word iteration variables and formal parameters, filters, context values and multi-word keys, path heads, positional and named invocation), each name occurrence written in random spellings (1-3 blanks, tabs, line breaks between words; blanks or not around symbols); the value must equal the reference value of the tree. Quick 250 rounds x 17 families (~254k evaluations), thorough 8000 rounds.",
+    "note": "Words are never keywords, literals or built-in names; name sets in which two bound names joined by a symbol or a blank read as a third bound name arise only in the families built on purpose (there the longest bound name is the expected reading).",
+    "design_ref": "DESIGN.md §3 C10",
+}
+CLAIMS["C13"] = {
+    "category": "exploration",
+    "technique": "runtime invariant monitors next to the observed state (scope snapshot before / after parse and evaluate, input-context snapshot around evaluate_invocable) + history checker over repeated interleaved evaluations",
+    "text": "Expressions forced through the constructs that push temporary contexts (context literals, filters, for / some / every, invocations, unary tests, paths) are parsed and evaluated 3x in scopes of 1-4 layers while the driver renders the scope before the parse, after it and after every evaluation; successful parses through all six entry points are checked the same way; histories of 200-2000 steps evaluate 8 prepared evaluators over 4 long-lived scopes in random order and compare every observation with the first one of the same pair and the scope with its initial rendering; generated DMN models (boxed contexts, invocations, BKMs, services, tables) have every (invocable, input) pair called 3x interleaved in random order with the input context rendered before and after.",
+    "note": "The scope's Display rendering is taken as a faithful witness of its contents; values depending on the current date are not generated.",
+    "design_ref": "DESIGN.md §3 C13",
+}
+
 NOT_YET = "check not built yet in this round (work in progress; see DESIGN.md for the planned monitor)"
 
 
